@@ -193,6 +193,18 @@ def run(ch, tier):
             code = [e for e in r.log]
             return res.fail('meta-event-timing', 'meta-event %d (%s) was emitted after %d pieces of monitored code of this step had run, it '
                             'documents something that happened after %d: %r' % (i, got[i][0], got_pos[i], want_pos[i], code[:max(got_pos[i], want_pos[i]) + 1]), **ctx)
+        issued = [e[1] for e in r.log if e[0] in ('send', 'notify')]
+        emitted = []
+        for x in got:
+            d = dict(x[1])
+            if x[0] == 'event sent':
+                emitted.append(d['event'][2])
+            elif x[0] in ('na', 'nb'):
+                emitted.append(d.get('uid'))
+        # per micro step the code of one block issues its sends/notifies in program order; blocks follow each other
+        if sorted(issued) == sorted(emitted) and issued != emitted:
+            return res.fail('meta-event-order', 'the code of this step issued send/notify uids in the order %s, listeners were told in the order %s' % (
+                issued, emitted), **ctx)
         qs = q.seen[pos:]
         if [x[0] for x in qs] != [x[0] for x in got_all]:
             return res.fail('property-chart-stream', 'the bound property statechart received %r, the attached listener %r' % (
